@@ -10,6 +10,7 @@ from __future__ import annotations
 
 import ast
 import concurrent.futures as cf
+import fnmatch
 import hashlib
 import importlib
 import json
@@ -251,12 +252,15 @@ def run_property(prop: str, tier: str) -> int:
     exclude: dict[str, list[str]] = {}
     for kf in known:
         w = kf['witness']
-        label = _replay_spec(w, kf['obligation'], tier)
+        label = _replay_spec(w, kf['obligation'].replace('*', 'x'), tier)
         still = label == kf['label']
         kf['_reproduced'] = still
         kf['_replay_label'] = label
         if still:
-            exclude.setdefault(kf['obligation'], []).append(kf['label'])
+            # 'obligation' may be a glob: one defective call site can sit behind a whole family of case-split obligations
+            for ob in obls:
+                if fnmatch.fnmatchcase(ob.id, kf['obligation']):
+                    exclude.setdefault(ob.id, []).append(kf['label'])
             known_hits.append(kf)
             lines.append(f'KNOWN-FINDING: property={prop} obligation={kf["obligation"]} {kf["label"]}: {kf["what"]}')
 
